@@ -23,7 +23,7 @@ def replay():
     from eko.kernels import non_singlet as ns, singlet as s, EvoMethods
     rng = np.random.default_rng(9)
     out = []
-    exact_set = [EvoMethods.DECOMPOSE_EXACT, EvoMethods.DECOMPOSE_EXPANDED, EvoMethods.TRUNCATED, EvoMethods.ORDERED_TRUNCATED]
+    exact_set = %(exact_set)s
     for nf in (3, 4, 5, 6):
         for order in (1, 2, 3, 4):
             p = (rng.normal(size=order) + 1j * rng.normal(size=order)) * 3.0 ** np.arange(order)
@@ -45,7 +45,9 @@ def run(chk):
     from eko.kernels import non_singlet as ns, singlet as s, EvoMethods
     from eko.kernels import as4_evolution_integrals as e4
 
-    rp = script(REPLAY, kind="diag_singlet_vs_ns_oracle")
+    # two oracles: the one attached to the ORDERED_TRUNCATED obligations reproduces the recorded finding F05, the other one must stay silent on the pinned tree
+    rp_all = script(REPLAY % dict(exact_set="[EvoMethods.DECOMPOSE_EXACT, EvoMethods.DECOMPOSE_EXPANDED, EvoMethods.TRUNCATED]"), kind="diag_singlet_vs_ns_oracle")
+    rp_ot = script(REPLAY % dict(exact_set="[EvoMethods.ORDERED_TRUNCATED]"), kind="diag_singlet_vs_ns_oracle_ordered_truncated")
     chk.trust("atom law sqrt(t^2) = sigma t with sigma^2 = 1 (both branches)", "roots() through its contract (opaque values)", "lemma: loop invariant induction")
     chk.uncovered("iterated and perturbative methods 'within their discretisation/truncation accuracy' of the closed-form NS kernel (a numerical statement)")
     chk.bounded_parts.append("iterate-*: 'same scalar function on each entry' proved for ev_op_iterations in {1,2} (bounded -- not proved beyond); diagonal structure proved for any iteration count")
@@ -93,6 +95,7 @@ def run(chk):
                 if True:
                     tag = f"C09[nf={nf},order={order},{m.name}]"
                     fn = "eko.kernels.singlet:dispatcher"
+                    rp = rp_ot if m is EvoMethods.ORDERED_TRUNCATED else rp_all
                     G = diag(p, q, order)
                     if order == 4 and m is EvoMethods.DECOMPOSE_EXACT:
                         # both sectors call the same order-4 integrals with the same arguments: compared through opaque values
